@@ -18,6 +18,8 @@ var (
 		"text", "clob", "character(20)", "varchar(255)", "varying character(255)", "nchar(55)", "native character(70)", "nvarchar(100)", "varchar",
 		"blob", "numeric", "numeric(10,2)", "decimal(10,5)", "decimal",
 		"bool", "boolean", "date", "datetime", "json", "jsonb", "uuid",
+		// names no Atlas type covers (kept as user-defined types, in the spelling the database has)
+		"MONEY", "Point2D",
 	}
 	StrictTypes = []string{"integer", "int", "real", "text", "blob", "any"}
 	Actions     = []string{"", "NO ACTION", "RESTRICT", "CASCADE", "SET NULL", "SET DEFAULT"}
@@ -206,6 +208,7 @@ func genIndex(t *rapid.T, tb *Table, name string, o Opts) Index {
 		ix.Where = fmt.Sprintf(ix.Where, qcol(c))
 	}
 	ix.LowerKW = rapid.IntRange(0, 2).Draw(t, "lowerkw") == 0
+	ix.Note = ix.Where != "" && rapid.IntRange(0, 2).Draw(t, "note") == 0
 	return ix
 }
 
